@@ -3,19 +3,21 @@ two contextualisers), proved for every current status x event with all workflow-
 symbolic (universally quantified)."""
 import z3
 
-from orquesta import events, exceptions as exc, machines, statuses as st
+from orquesta import events, exceptions as exc, machines
+from contracts import specconst as st
 
 from pyvc import sym as S
 from pyvc.engine import AbstractObj, Raised, Stub
 from pyvc.framework import Unit
 from pyvc.spec import AND, OR, NOT, IMPLIES, IFF, EQ, NE, IN, NOTIN
 
-FACTS = ["A", "SG", "HN", "BN", "CG", "CD", "PG", "PD", "UB"]
+FACTS = ["A", "SG", "HN", "BN", "CG", "CD", "PG", "PD", "UB", "RS"]
 FACT_DOC = {
     "A": "has_active_tasks", "SG": "has_staged_tasks (ready, not completed)",
     "HN": "has_next_tasks(task, route)", "BN": "has_barrier_next(task, route)",
     "CG": "has_canceling_tasks", "CD": "has_canceled_tasks", "PG": "has_pausing_tasks",
     "PD": "has_paused_tasks (paused or pending)", "UB": "get_unreachable_barriers() non-empty",
+    "RS": "raw staged list non-empty (includes not-ready joins and completed-flagged with-items entries)",
 }
 
 
@@ -43,8 +45,22 @@ def make_ws(e, old, F, log):
             return [{"id": "join_task", "route": 0}]
         return []
 
+    RS = F.get("RS")
+
+    def raw_staged(eng, obj=None):
+        # raw staged list: non-empty iff RS (ready entries imply a non-empty raw list: link SG => RS)
+        if RS is None:
+            raise S.Unsupported("raw staged list has no contract in this unit")
+        return [{"id": "staged_task", "route": 0, "ready": F["SG"]}] if eng.branch(RS.z) else []
+
+    def get_staged_tasks(eng, filtered=True):
+        if not filtered:
+            return raw_staged(eng)
+        return [{"id": "staged_task", "route": 0, "ready": True}] if eng.branch(F["SG"].z) else []
+
     return AbstractObj(
-        "workflow_state", status=old, conductor=cond,
+        "workflow_state", status=old, conductor=cond, staged=property(raw_staged),
+        get_staged_tasks=Stub("get_staged_tasks", get_staged_tasks),
         has_active_tasks=F["A"], has_staged_tasks=F["SG"], has_canceling_tasks=F["CG"],
         has_canceled_tasks=F["CD"], has_pausing_tasks=F["PG"], has_paused_tasks=F["PD"],
         has_next_tasks=Stub("has_next_tasks", lambda eng, *a, **k: F["HN"]),
@@ -80,6 +96,15 @@ class NativeWS(object):
     def get_unreachable_barriers(self):
         return [{"id": "join_task", "route": 0}] if self.F["UB"] else []
 
+    @property
+    def staged(self):
+        return [{"id": "staged_task", "route": 0, "ready": self.F["SG"]}] if self.F["RS"] else []
+
+    def get_staged_tasks(self, filtered=True):
+        if not filtered:
+            return self.staged
+        return [{"id": "staged_task", "route": 0, "ready": True}] if self.F["SG"] else []
+
 
 # ------------------------------------------------------------------------------------------------
 # clauses (taken from the property statements; v: dict of named values)
@@ -94,6 +119,7 @@ def links(v):
         IMPLIES(IN(ev, [st.PAUSED, st.PENDING]), v["PD"]),
         IMPLIES(EQ(ev, st.CANCELING), v["CG"]),
         IMPLIES(EQ(ev, st.CANCELED), v["CD"]),
+        IMPLIES(v["SG"], v["RS"]) if "RS" in v else True,
         # fact consistency (S layer): a canceling / pausing task is an active task
         IMPLIES(v["CG"], v["A"]) if st.CANCELING in st.ACTIVE_STATUSES else True,
         IMPLIES(v["PG"], v["A"]) if st.PAUSING in st.ACTIVE_STATUSES else True,
@@ -342,7 +368,7 @@ class ProcessTaskEvent(Unit):
 # ================================================================================================
 # process_workflow_event (status requests)
 # ================================================================================================
-WFACTS = ["A", "SG", "PD"]
+WFACTS = ["A", "SG", "PD", "RS"]
 
 
 def pwe_links(v):
@@ -352,6 +378,7 @@ def pwe_links(v):
                                st.SCHEDULED, st.DELAYED]), NOT(v["A"])),
         IMPLIES(IN(v["old"], [st.PAUSING, st.CANCELING]), v["A"]),
         IMPLIES(EQ(v["old"], st.SUCCEEDED), NOT(v["SG"])),
+        IMPLIES(v["SG"], v["RS"]),
     )
 
 
@@ -504,8 +531,18 @@ class ProcessWorkflowEvent(Unit):
             v = {"old": old, "req": req}
             v.update(F)
             e.assume(pwe_links(v))
+            def raw_staged(eng, obj=None):
+                return [{"id": "staged_task", "route": 0, "ready": F["SG"]}] if eng.branch(F["RS"].z) else []
+
+            def get_staged_tasks(eng, filtered=True):
+                if not filtered:
+                    return raw_staged(eng)
+                return [{"id": "staged_task", "route": 0, "ready": True}] if eng.branch(F["SG"].z) else []
+
             ws = AbstractObj("workflow_state", status=old, has_active_tasks=F["A"],
-                             has_staged_tasks=F["SG"], has_paused_tasks=F["PD"])
+                             has_staged_tasks=F["SG"], has_paused_tasks=F["PD"],
+                             staged=property(raw_staged),
+                             get_staged_tasks=Stub("get_staged_tasks", get_staged_tasks))
             event = e.call(events.WorkflowExecutionEvent, [req], {})
             raised = None
             try:
@@ -532,6 +569,9 @@ class ProcessWorkflowEvent(Unit):
         ws.has_active_tasks = inputs["A"]
         ws.has_staged_tasks = inputs["SG"]
         ws.has_paused_tasks = inputs["PD"]
+        ws.staged = [{"id": "staged_task", "route": 0, "ready": inputs["SG"]}] if inputs["RS"] else []
+        ws.get_staged_tasks = lambda filtered=True: (
+            ws.staged if not filtered else ([{"id": "staged_task", "route": 0, "ready": True}] if inputs["SG"] else []))
         raised = None
         try:
             machines.WorkflowStateMachine.process_workflow_event(
@@ -542,3 +582,45 @@ class ProcessWorkflowEvent(Unit):
 
     def clause(self, name):
         return PWE_OBLIGATIONS[name][1]
+
+
+# ================================================================================================
+# status vocabulary: the code's lists agree with the specification's
+# ================================================================================================
+class StatusLists(Unit):
+    name = "M.status_lists"
+    functions = ["orquesta.statuses (module constants)", "orquesta.statuses.is_valid"]
+    obligations = {
+        "C02.statuses.lists": {"props": ["C02", "C01", "C03", "C04", "C09", "C10", "C12", "C13"], "text":
+            "every status list of orquesta.statuses contains exactly the statuses the lifecycle documents for it (as a set) and every status constant has its documented value"},
+        "C02.statuses.tables_closed": {"props": ["C02", "C15"], "text":
+            "every status produced by a cell of either table is a row of that table; every event name in a row is a declared event"},
+    }
+    assumptions = ["the specification's status vocabulary is contracts/specconst.py"]
+    trusted = ["CPython (concrete evaluation of module constants)"]
+
+    def run_split(self, ctx, split):
+        from orquesta import statuses as real
+
+        def thunk(e):
+            for name in st.LISTS:
+                got = getattr(real, name, None)
+                ok = isinstance(got, list) and set(got) == set(getattr(st, name)) and len(got) == len(set(got))
+                ctx.oblige("C02.statuses.lists", ok, None, {"list": name})
+            for name in ["REQUESTED", "SCHEDULED", "DELAYED", "RUNNING", "PENDING", "PAUSING", "PAUSED",
+                         "RESUMING", "SUCCEEDED", "FAILED", "EXPIRED", "ABANDONED", "RETRYING", "CANCELING",
+                         "CANCELED", "UNSET"]:
+                ctx.oblige("C02.statuses.lists", getattr(real, name, None) == getattr(st, name), None,
+                           {"constant": name})
+            for tname, table, evs in [
+                    ("workflow", machines.WORKFLOW_STATE_MACHINE_DATA,
+                     events.WORKFLOW_EXECUTION_EVENTS + events.TASK_EXECUTION_EVENTS),
+                    ("task", machines.TASK_STATE_MACHINE_DATA,
+                     events.ACTION_EXECUTION_EVENTS + events.ENGINE_OPERATION_EVENTS + events.WORKFLOW_EXECUTION_EVENTS)]:
+                for row, cells in table.items():
+                    ok = row in st.ALL_STATUSES and all(v in table for v in cells.values()) \
+                        and all(k in evs for k in cells)
+                    ctx.oblige("C02.statuses.tables_closed", ok, None, {"table": tname, "row": row})
+            ctx.canary()
+
+        ctx.eng.explore(thunk)
